@@ -1,6 +1,9 @@
 import PdfModel.Core.Proto
 import PdfModel.Model.Derive
 import PdfModel.Generated.Schemas
+import PdfModel.Generated.Dispatch
+import PdfModel.Model.Handwritten2
+import PdfModel.Generated.Lexical
 
 /-! Line-protocol handler for the C15 streams (also used by Drv/C18).
 
@@ -203,9 +206,137 @@ def handleRt (args : List String) : String :=
     | _, _, _, _, _, _ => "bad-request"
   | _ => "bad-request"
 
+/-! ### hand-written pairs (`c15.hw <type> …`)
+
+  tprim    P<prim> | S<dict prim>~<hex data>           a plain primitive or a stream
+  aprim    S | O | D{<hexkey>:aprim,…}                  an appearance entry after resolution (S: a form stream) -/
+
+def parseTPrim (s : String) : Option TPrim :=
+  match s.toList with
+  | 'P' :: r => (parsePrimAll (String.ofList r)).map .plain
+  | 'S' :: r =>
+    match (String.ofList r).splitOn "~" with
+    | [d, h] =>
+      match parsePrimAll d, bytesOfHex h with
+      | some (.dict kvs), some bs => some (.stream kvs bs)
+      | _, _ => none
+    | _ => none
+  | _ => none
+
+def showTPrim : TPrim → String
+  | .plain p => "P" ++ showPrim p
+  | .stream d b => "S" ++ showPrim (.dict d) ++ "~" ++ hexOfBytes b
+
+partial def parseAPrim : List Char → Option (APrim × List Char)
+  | 'S' :: r => some (.stream [] [], r)
+  | 'O' :: r => some (.other, r)
+  | 'D' :: '{' :: '}' :: r => some (.dict [], r)
+  | 'D' :: '{' :: r =>
+    let rec entries (r : List Char) (acc : List (String × APrim)) : Option (APrim × List Char) :=
+      let ktok := r.takeWhile fun c => c.isAlphanum || c == '-'
+      match bytesOfHex (String.ofList ktok), r.drop ktok.length with
+      | some kb, ':' :: r1 =>
+        let k := String.ofList (kb.map fun b => Char.ofNat b.toNat)
+        match parseAPrim r1 with
+        | some (p, ',' :: r2) => entries r2 ((k, p) :: acc)
+        | some (p, '}' :: r2) => some (.dict ((k, p) :: acc).reverse, r2)
+        | _ => none
+      | _, _ => none
+    entries r []
+  | _ => none
+
+partial def showAPrim : APrim → String
+  | .stream _ _ => "S"
+  | .other => "O"
+  | .dict kvs =>
+    let es := kvs.foldl (fun acc kv => insertSorted (kv.1, showAPrim kv.2) acc) []
+    "D{" ++ ",".intercalate (es.map fun kv => hexOfString kv.1 ++ ":" ++ kv.2) ++ "}"
+
+def hwSem : Sem := semN ⟨true⟩ Generated.generatedSchemas modelDepth
+
+def xobjTag (ident : String) : Option String :=
+  match Generated.d_XObject.writer.find? (fun wa => wa.variants.contains ident) with
+  | some wa => wa.tags.find? fun t => (Generated.s_XObject.variants.any fun v => v.name == t)
+  | none => none
+
+def handleHw (args : List String) : String :=
+  match args with
+  | [_, "NamedDest", tol, objs, prim] =>
+    match boolOf tol, parseObjects objs, parsePrimAll prim with
+    | some tl, some os, some p =>
+      match readNamedDestV (mkEnv os [] tl) p with
+      | .ok d => "ok " ++ showPrim (writeNamedDestV d)
+      | .error _ => "rerr"
+    | _, _, _ => "bad-request"
+  | [_, "NumberTree", objs, prim] =>
+    match parseObjects objs, parsePrimAll prim with
+    | some os, some p =>
+      let env := mkEnv os [] false
+      let rdT := fun q => baseSem.rd env (.leaf "i32") q
+      match readNumTree rdT env p with
+      | .ok t => (match writeNumTree (baseSem.wr (.leaf "i32")) t with | .ok q => "ok " ++ showPrim q | .error _ => "werr")
+      | .error _ => "rerr"
+    | _, _ => "bad-request"
+  | [_, "NameTree", objs, prim] =>
+    match parseObjects objs, parsePrimAll prim with
+    | some os, some p =>
+      let env := mkEnv os [] false
+      match readNameTree (fun q => .ok (.leaf q)) env p with
+      | .ok t => (match specNameTree (fun v => match v with | .leaf q => (.ok q : R Prim) | _ => .error .other) t with | .ok q => "ok " ++ showPrim q | .error _ => "werr")
+      | .error _ => "rerr"
+    | _, _ => "bad-request"
+  | [_, "CidToGidMap", tprim] =>
+    match parseTPrim tprim with
+    | some tp =>
+      match readCidMap tp with
+      | .ok m => "ok " ++ showTPrim (writeCidMap m)
+      | .error .oof => "oof"
+      | .error _ => "rerr"
+    | none => "bad-request"
+  | [_, "ASE", aprim] =>
+    match parseAPrim aprim.toList with
+    | some (a, []) =>
+      match readASE (fun _ _ => .ok (.leaf .null)) Generated.appearanceDepth a with
+      | .ok t => (match writeASE (fun _ => .ok ([], [])) 8 t with | .ok b => "ok " ++ showAPrim b | .error _ => "werr")
+      | .error _ => "rerr"
+    | _ => "bad-request"
+  | [_, "Pattern", objs, tprim] =>
+    match parseObjects objs, parseTPrim tprim with
+    | some os, some tp =>
+      let env := mkEnv os [] false
+      let rdDict := fun d => readStructD ⟨true⟩ hwSem env Generated.s_PatternDict d
+      let wrDict := fun v => match writeStruct hwSem Generated.s_PatternDict v with
+        | .ok (.dict d) => (.ok d : R Dict)
+        | _ => .error .other
+      match readPattern rdDict (fun b => .ok b) tp with
+      | .ok x =>
+        match writePattern wrDict (fun b => .ok b) x with
+        | .ok (.plain q) => "ok dict " ++ showPrim q
+        | .ok (.stream d _) => "ok stream " ++ showPrim (.dict (derase "Length" d))
+        | .error _ => "werr"
+      | .error .oof => "oof"
+      | .error _ => "rerr"
+    | _, _ => "bad-request"
+  | [_, "XObject", tprim] =>
+    match parseTPrim tprim with
+    | some tp =>
+      match readXObject Generated.s_XObject.variants (fun _ _ _ => .ok (.leaf .null)) tp with
+      | .ok (ident, _) => s!"ok {ident} {(xobjTag ident).getD "?"}"
+      | .error _ => "rerr"
+    | none => "bad-request"
+  | [_, "Encoding", objs, prim] =>
+    match parseObjects objs, parsePrimAll prim with
+    | some os, some p =>
+      match readEncoding (mkEnv os [] false) 8 p with
+      | .ok (b, m) => (match writeEncoding ⟨b, sortDiffs m⟩ with | .ok q => "ok " ++ showPrim q | .error _ => "werr")
+      | .error _ => "rerr"
+    | _, _ => "bad-request"
+  | _ => "bad-request"
+
 def handle (args : List String) : String :=
   match args with
   | "c15.rt" :: _ => handleRt args
+  | "c15.hw" :: _ => handleHw args
   | ["c15.f32", i] =>
     match intOf i with
     | some n => toString (f32OfInt n)
